@@ -43,17 +43,19 @@ Theorem C08_sym_rowsum_volume :
 Proof. exact vl_gen_sym_rowsum. Qed.
 Print Assumptions C08_sym_rowsum_volume.
 
-(* tetrahedral dual Laplacian (laplacian_op.laplacian_tetrahedra): zero row sums for any neighbour function.
-   Full statement also claims symmetry; it holds exactly when the neighbour relation cell_to_cell is symmetric
-   (a C03 fact about conforming meshes), which is tested per case by the correspondence and the oracle, not proved here. *)
-Theorem C08_rowsum_tetra_partial :
+(* tetrahedral dual Laplacian (laplacian_op.laplacian_tetrahedra): zero row sums for any neighbour function; symmetric as
+   soon as the neighbour relation connectivity.cell_to_cell is symmetric and stays inside the cell range (what a conforming
+   tetrahedral mesh gives - a C03 fact; the model's cell_nbrs satisfies it on a concrete mesh: Proofs_Real.ex_tets) *)
+Theorem C08_sym_rowsum_tetra :
   forall (T : Type) (O : ops T),
     ring_theory (o0 O) (o1 O) (oadd O) (omul O) (osub O) (oopp O) eq ->
     oofZ O 0%Z = o0 O ->
     (forall n : nat, oofZ O (Z.of_nat (S n)) = oadd O (o1 O) (oofZ O (Z.of_nat n))) ->
-    forall (nb : Z -> list Z) (nc : Z), rs0 T O (tl_gen O nb nc).
-Proof. exact tl_gen_rowsum. Qed.
-Print Assumptions C08_rowsum_tetra_partial.
+    forall (nb : Z -> list Z) (nc : Z),
+      rs0 T O (tl_gen O nb nc) /\
+      (nb_symmetric nb nc -> nb_closed nb nc -> symm T O (tl_gen O nb nc)).
+Proof. intros T O H0 H1 H2 nb nc. exact (conj (tl_gen_rowsum T O H0 H1 H2 nb nc) (tl_gen_symm T O H0 H1 H2 nb nc)). Qed.
+Print Assumptions C08_sym_rowsum_tetra.
 
 (* ---- C08_stiffness ---------------------------------------------------------------------------------------------- *)
 (* cotan Laplacian = independently assembled P1 stiffness matrix, entrywise, for every list of non-degenerate triangles *)
